@@ -126,6 +126,9 @@ func immutRaw(kind string, alt bool) []byte {
 		bad := rawAVP(9010, 0x40, 0, 8+40, []byte{5 ^ x, 6 ^ x, 7 ^ x, 8 ^ x, 9 ^ x, 10 ^ x, 11 ^ x, 12 ^ x}, false)
 		pay := append(inner, bad...)
 		return rawAVP(9018, 0, 0, 8+len(pay), pay, true)
+	case "u32len8": // an Unsigned32-typed AVP and a Time-typed AVP carrying 8 octets each
+		pay := []byte{1 ^ x, 2 ^ x, 3 ^ x, 4 ^ x, 5 ^ x, 6 ^ x, 7 ^ x, 8 ^ x}
+		return append(rawAVP(9001, 0x40, 0, 8+len(pay), pay, true), rawAVP(9008, 0x40, 0, 8+len(pay), pay, true)...)
 	case "addrmapped": // an Address of family 2 holding an IPv4-mapped address (re-encodes shorter: a known finding elsewhere)
 		pay := append([]byte{0, 2, 0, 0, 0, 0, 0, 0, 0, 0, 0, 0, 0xff, 0xff}, 10^x, 1^x, 2^x, 3^x)
 		return rawAVP(9009, 0x40, 0, 8+len(pay), pay, true)
@@ -212,6 +215,37 @@ func runImmut(id int, c *immutCase, dp *dict.Parser) immutLine {
 		as.Feed(3, immutWire(c, c.Size, false, dp))
 		m0, err = diam.ReadMessage(diam.NewSCTPConnVerif(as), dp)
 		defer as.Close()
+	} else if id%4 == 2 {
+		// the retained message is a request that a handler of a served connection kept beyond its return
+		// (a queue, a worker goroutine): the serve loop has gone on to its next read
+		l.Via = "handler"
+		mc0 := memnet.NewConn()
+		defer mc0.Close()
+		kept := make(chan *diam.Message, 1)
+		mux0 := diam.NewServeMux()
+		mux0.HandleFunc("ALL", func(_ diam.Conn, m *diam.Message) {
+			select {
+			case kept <- m:
+			default:
+			}
+		})
+		rep := make(chan error, 1)
+		go func() {
+			select {
+			case r := <-mux0.ErrorReports():
+				rep <- r.Error
+			case <-time.After(3 * time.Second):
+			}
+		}()
+		diam.NewConn(mc0, "10.0.0.2:3868", mux0, dp)
+		mc0.Feed(immutWire(c, c.Size, false, dp))
+		select {
+		case m0 = <-kept:
+			mc0.WaitReaderBlocked(time.Second)
+		case err = <-rep:
+		case <-time.After(2 * time.Second):
+			err = fmt.Errorf("message not delivered to the handler")
+		}
 	} else {
 		m0, err = diam.ReadMessage(bytes.NewReader(immutWire(c, c.Size, false, dp)), dp)
 	}
